@@ -5,7 +5,11 @@
 (* back -- one action per step, so that a user callback raising inside the  *)
 (* k-th frame's injection is an ordinary behaviour.  Start times are whole  *)
 (* rows (multiples of dt); the signal is the probe family of InjectionMath. *)
-(* Also: overwriting start times and consolidation.                         *)
+(* Also: overwriting start times and consolidation; between two            *)
+(* cadence-wide injections the start times may be re-spaced                 *)
+(* (overwrite_times with a new slew time) or one frame's start time edited  *)
+(* directly (action Retime): the second injection owes the offsets of the   *)
+(* start times as they are THEN.                                            *)
 (***************************************************************************)
 EXTENDS Integers, Sequences, FiniteSets, TLC, Json, InjectionMath
 
@@ -24,9 +28,12 @@ VARIABLES cad,       \* [starts (seq of start rows), T (seq of rows per frame), 
           off,       \* off[i] = rows currently added to frame i's time axis
           contrib,   \* contrib[i] = sequence of row offsets with which frame i was injected
           exc,       \* the exception escaped to the caller
+          cad0,      \* the cadence as built (start times before any Retime)
+          retime,    \* what happened to the start times between the two injections: -1 nothing, 0 / 3 = overwrite_times with
+                     \* that slew time (rows), 7 = the last frame's start time moved 2 rows later by direct assignment
           hist
 
-vars == <<cad, sig, raiseAt, sel, rounds, round, sels, pc, k, off, contrib, exc, hist>>
+vars == <<cad, sig, raiseAt, sel, rounds, round, sels, pc, k, off, contrib, exc, cad0, retime, hist>>
 
 Base == [pathForm |-> "fn", tForm |-> "fn", bpForm |-> "fn", iP |-> FALSE, iT |-> FALSE, iF |-> FALSE,
          tsub |-> 2, fsub |-> 2, smear |-> 0, bnd |-> <<>>, p0 |-> 10, slope |-> 2, curv |-> 0, wd |-> 30]
@@ -52,11 +59,11 @@ Init == /\ cad \in (IF Mix THEN {c \in Cads : Len(c.starts) = 3} ELSE Cads)
         /\ raiseAt \in (IF Mix THEN {0} ELSE 0..Len(cad.starts))
         /\ rounds \in (IF Mix THEN {2} ELSE {1, 2}) /\ round = 1 /\ sels = <<>>
         /\ pc = "idle" /\ k = 0 /\ off = [i \in 1..4 |-> 0] /\ contrib = [i \in 1..4 |-> <<>>]
-        /\ exc = FALSE /\ hist = <<>>
+        /\ exc = FALSE /\ hist = <<>> /\ cad0 = cad /\ retime = -1
 
 Begin == /\ pc = "idle" /\ hist = <<>> /\ round = 1 /\ Len(Members) >= 1 /\ raiseAt <= Len(Members)
          /\ pc' = "shift" /\ k' = 1
-         /\ UNCHANGED <<cad, sig, raiseAt, sel, rounds, round, sels, off, contrib, exc, hist>>
+         /\ UNCHANGED <<cad, sig, raiseAt, sel, rounds, round, sels, off, contrib, exc, cad0, retime, hist>>
 
 (* a second injection, possibly into another subset (whose first frame, hence every offset, may differ) *)
 Begin2 == /\ pc = "between" /\ round = 2
@@ -64,19 +71,30 @@ Begin2 == /\ pc = "between" /\ round = 2
                  /\ (s2 = "tail" => N > 1) /\ sel' = s2
                  /\ raiseAt <= (IF s2 \in {"all", "direct"} THEN N ELSE IF s2 = "slice" THEN (N + 1) \div 2 ELSE N - 1)
           /\ pc' = "shift" /\ k' = 1
-          /\ UNCHANGED <<cad, sig, raiseAt, rounds, round, sels, off, contrib, exc, hist>>
+          /\ UNCHANGED <<cad, sig, raiseAt, rounds, round, sels, off, contrib, exc, cad0, retime, hist>>
+
+(* declared before use: overwrite_times: frame i starts at the stop time of frame i-1 plus the slew time (rows) *)
+RECURSIVE Chain(_, _)
+Chain(i, slew) == IF i = 1 THEN cad.starts[1] ELSE Chain(i - 1, slew) + cad.T[i - 1] + slew
+Overwritten(slew) == [i \in 1..N |-> Chain(i, slew)]
+
+Retime == /\ pc = "between" /\ round = 2 /\ retime = -1 /\ N > 1
+          /\ \E r \in {0, 3, 7} :
+                 /\ retime' = r
+                 /\ cad' = [cad EXCEPT !.starts = IF r = 7 THEN [cad.starts EXCEPT ![N] = @ + 2] ELSE Overwritten(r)]
+          /\ UNCHANGED <<sig, raiseAt, sel, rounds, round, sels, pc, k, off, contrib, exc, cad0, hist>>
 
 Shift == /\ pc = "shift"
          /\ off' = [off EXCEPT ![Members[k]] = @ + Rel(Members[k])]
          /\ pc' = "inject"
-         /\ UNCHANGED <<cad, sig, raiseAt, sel, rounds, round, sels, k, contrib, exc, hist>>
+         /\ UNCHANGED <<cad, sig, raiseAt, sel, rounds, round, sels, k, contrib, exc, cad0, retime, hist>>
 
 Inject == /\ pc = "inject"
           /\ IF raiseAt = k /\ round = rounds
              THEN exc' = TRUE /\ UNCHANGED contrib                                   \* the callback raises: nothing is added
              ELSE exc' = exc /\ contrib' = [contrib EXCEPT ![Members[k]] = Append(@, off[Members[k]])]
           /\ pc' = "unshift"                                                         \* the shift is undone in either case
-          /\ UNCHANGED <<cad, sig, raiseAt, sel, rounds, round, sels, k, off, hist>>
+          /\ UNCHANGED <<cad, sig, raiseAt, sel, rounds, round, sels, k, off, cad0, retime, hist>>
 
 Unshift == /\ pc = "unshift"
            /\ off' = [off EXCEPT ![Members[k]] = @ - Rel(Members[k])]
@@ -84,12 +102,7 @@ Unshift == /\ pc = "unshift"
               THEN /\ k' = k /\ sels' = Append(sels, sel)
                    /\ IF round < rounds THEN pc' = "between" /\ round' = round + 1 ELSE pc' = "finish" /\ round' = round
               ELSE pc' = "shift" /\ k' = k + 1 /\ UNCHANGED <<round, sels>>
-           /\ UNCHANGED <<cad, sig, raiseAt, sel, rounds, contrib, exc, hist>>
-
-(* overwrite_times: frame i starts at the stop time of frame i-1 plus the slew time (rows) *)
-RECURSIVE Chain(_, _)
-Chain(i, slew) == IF i = 1 THEN cad.starts[1] ELSE Chain(i - 1, slew) + cad.T[i - 1] + slew
-Overwritten(slew) == [i \in 1..N |-> Chain(i, slew)]
+           /\ UNCHANGED <<cad, sig, raiseAt, sel, rounds, contrib, exc, cad0, retime, hist>>
 
 AddM(a, b) == [i \in 1..Len(a) |-> [j \in 1..Len(a[i]) |-> a[i][j] + b[i][j]]]
 Expected(i) == LET g == [F |-> cad.F, T |-> cad.T[i]] IN
@@ -98,20 +111,20 @@ Expected(i) == LET g == [F |-> cad.F, T |-> cad.T[i]] IN
                ELSE AddM(ReturnedAt(sig, g, contrib[i][1]), ReturnedAt(sig, g, contrib[i][2]))
 
 Finish == /\ pc = "finish"
-          /\ hist' = <<[cad |-> cad, sig |-> sig, sels |-> sels, raiseAt |-> raiseAt, raised |-> exc,
+          /\ hist' = <<[cad |-> cad0, retime |-> retime, starts2 |-> cad.starts, sig |-> sig, sels |-> sels, raiseAt |-> raiseAt, raised |-> exc,
                         den |-> Den(sig), overwrite0 |-> Overwritten(0), overwrite3 |-> Overwritten(3),
                         frames |-> [i \in 1..N |-> [offsets |-> contrib[i], added |-> Expected(i)]]]>>
           /\ pc' = "idle"
-          /\ UNCHANGED <<cad, sig, raiseAt, sel, rounds, round, sels, k, off, contrib, exc>>
+          /\ UNCHANGED <<cad, sig, raiseAt, sel, rounds, round, sels, k, off, contrib, exc, cad0, retime>>
 
 Emit == /\ EmitOn /\ pc = "idle" /\ hist # <<>> /\ Len(hist) = 1
         /\ PrintT(ToJson(hist[1]))
         /\ hist' = Append(hist, hist[1])
-        /\ UNCHANGED <<cad, sig, raiseAt, sel, rounds, round, sels, pc, k, off, contrib, exc>>
+        /\ UNCHANGED <<cad, sig, raiseAt, sel, rounds, round, sels, pc, k, off, contrib, exc, cad0, retime>>
 Idle == pc = "idle" /\ hist # <<>> /\ (~EmitOn \/ Len(hist) = 2) /\ UNCHANGED vars
 Skip == pc = "idle" /\ hist = <<>> /\ ~(Len(Members) >= 1 /\ raiseAt <= Len(Members)) /\ UNCHANGED vars
 
-Next == Begin \/ Begin2 \/ Shift \/ Inject \/ Unshift \/ Finish \/ Emit \/ Idle \/ Skip
+Next == Begin \/ Begin2 \/ Retime \/ Shift \/ Inject \/ Unshift \/ Finish \/ Emit \/ Idle \/ Skip
 Spec == Init /\ [][Next]_vars
 
 -----------------------------------------------------------------------------
